@@ -129,3 +129,42 @@ End DepolSem.
 Definition py_spawn_streams (seed : Z) (n : nat) : list key := spawn seed [] n.
 Definition py_parallel_enumerate {A R : Type} (task : nat -> A -> R) (l : list A) : list R :=
   map (fun ia => task (fst ia) (snd ia)) (combine (seq 0 (length l)) l).
+
+(* ------------------------------------------------------------------ generation settings as seen by the flow's dispatch helper
+   Function translated in this style: simulation_flow._generate_with_stream (its test _takes_stream is checked textually: "generate
+   has a parameter named seed_or_generator").  A generation setting is abstracted by that one bit: the settings whose generate takes the
+   stream (random effective Lindbladian) make ONE task-draw on the stream they are given (None -> np.random); the others (depolarized,
+   plain) are deterministic, and calling their generate WITH an argument is a TypeError. *)
+Definition setting_generate (origin : Z * list nat * nat) (takes : bool) (v : sval) : sm genkey :=
+  if takes then sbind (experiment_draw origin v) (fun k => sret (GKey k)) else sret GTypeError.
+Definition setting_generate_default (origin : Z * list nat * nat) (takes : bool) : sm genkey :=
+  if takes then sbind (experiment_draw origin VNone) (fun k => sret (GKey k)) else sret GNoRandom.
+(* [f x for x in l] with a stateful body *)
+Fixpoint smapM {A B : Type} (f : A -> sm B) (l : list A) : sm (list B) :=
+  match l with
+  | [] => sret []
+  | a :: t => sbind (f a) (fun b => sbind (smapM f t) (fun bs => sret (b :: bs)))
+  end.
+
+(* ------------------------------------------------------------------ which objects the repetitions' estimation tasks are handed
+   Function translated in this style: simulation.execute_estimation (the task list of its joblib.Parallel call).
+   Every task receives, for estimator / loss / algo, either the simulation setting's own object (shared by all tasks) or a deep copy
+   made for this task.  A task loads its data into the loss object it was handed and then optimises over it (Model/C15_Dataflow.v: step). *)
+Inductive objref := OShared | OFresh.
+Record est_task := { t_estimator : objref; t_loss : objref; t_algo : objref }.
+(* the loss object of task t: its own copy (Some t) or the one shared object (None) *)
+Definition loss_register (tasks : list est_task) (t : nat) : option nat :=
+  match nth_error tasks t with
+  | Some tk => match t_loss tk with OFresh => Some t | OShared => None end
+  | None => None
+  end.
+Definition obj_eqb (a b : option nat) : bool :=
+  match a, b with Some x, Some y => Nat.eqb x y | None, None => true | _, _ => false end.
+(* execution of a schedule of load / optimise steps over loss OBJECTS: [regs o] = the task whose data object o currently carries *)
+Fixpoint run_objs (reg_of : nat -> option nat) (regs : option nat -> option nat) (sched : list step) : list (nat * option nat) :=
+  match sched with
+  | [] => []
+  | SetData t :: r => run_objs reg_of (fun o => if obj_eqb o (reg_of t) then Some t else regs o) r
+  | Optimize t :: r => (t, regs (reg_of t)) :: run_objs reg_of regs r
+  end.
+Definition step_task (s : step) : nat := match s with SetData t => t | Optimize t => t end.
